@@ -56,6 +56,16 @@ PROPS = {
                        "Not decided: the values of variables as strings (OS encoding).",
         "assumptions": ["Value::type_name returns a &'static str that names the kind only (checked: body has only constant arms)"],
     },
+    "C10": {
+        "module": "c10",
+        "explanation": "Who-may-call / who-may-write and provenance rules: Stack::add has a single caller behind both guards "
+                       "(R28, R29), the rebinding opcode BindOver is built only for the format `item` and the second bind of a "
+                       "constraint statement and Bind/BindOver map to op_bind(true/false) (R30), closures carry a snapshot taken at "
+                       "definition and calls are scoped with it alone, child scopes copy nothing back (R31), module bodies run in a "
+                       "clean copy with only `mod` bound (R32), `env` and every tokenizer keyword are refused as binding names "
+                       "(R47, R35 exhaustive over the keyword recognisers). Not decided: value equality of prefix runs.",
+        "assumptions": ["Rc<Value> values are immutable once built (no interior mutability in Value: checked by R28's field inventory of Stack only)"],
+    },
 }
 
 
